@@ -37,7 +37,8 @@ THRESHOLDS = [0.5, 0.1, 1e-2, 1e-4]
 def BOUND(tier):
     return {"chains": "n=2..4 (d=2,3), labelled elec/two n=3..4" if tier == "quick" else "n=2..5 (d=2,3), labelled elec/two/eph n=3..5",
             "limits": "all vectors in {1,2,3}^(n-1) x 4 specification styles, global M=1..4, thresholds " + str(THRESHOLDS),
-            "trees": "plane trees <= 4 nodes" if tier == "quick" else "plane trees <= 5 nodes"}
+            "trees": "plane trees <= 4 nodes" if tier == "quick" else "plane trees <= 5 nodes",
+            "settings_histories": "5 sibling histories x 3 derivations; 7 own-settings histories x 3 thresholds x 2 sweep directions"}
 
 
 def cases(tier, seed):
@@ -57,6 +58,10 @@ def cases(tier, seed):
     for hist in CONFIG_HISTORIES:
         for derive in ("copy()", "conj()", "scale(1)"):
             yield {"k": "config-history", "history": hist, "derive": derive}
+    for hist in OWN_HISTORIES:
+        for thr in (0.1, 0.3, 1e-3):
+            for direction in ("L", "R"):
+                yield {"k": "own-config-history", "history": hist, "threshold": thr, "dir": direction}
     from mc.space import plane_trees
     for nn in ((2, 3, 4) if quick else (2, 3, 4, 5)):
         for it, parent in enumerate(plane_trees(nn)):
@@ -350,7 +355,95 @@ def run_config_history(desc, seed):
     return {"nontrivial": True, "counters": {"compressions": 2}, "outcome": f"config-history:{'viol' if viol else 'ok'}", "viol": list(viol.values()), "sample": {"desc": desc, "bond_dims": bd}}
 
 
+OWN_HISTORIES = ["fixed-then-threshold", "both-then-threshold", "copy-of-limited-then-threshold", "sum-of-limited-then-threshold", "expanded-then-threshold",
+                 "threshold-then-fixed", "fixed-then-larger-fixed"]
+
+
+def run_own_history(desc, seed):
+    """the truncation settings object of ONE state used for several compressions in a row (its per-bond table is filled lazily by the first one,
+    or by an expansion, and is copied to derived states): a later compression under a different criterion / limit must behave exactly like
+    the same compression with a fresh settings object on the same tensors (differential), and keep the threshold count at the first cut."""
+    import copy as _copy
+    from renormalizer.utils import CompressConfig, CompressCriteria
+    ch = Chain("spin", 6, seed)
+    s = ch.random_mps([0], 8, "c05own", cplx=False)
+    hist, thr, direction = desc["history"], desc["threshold"], desc["dir"]
+    viol = {}
+    tag = f"[own settings history {hist}, then threshold {thr}, sweep {direction}]"
+
+    def add(sig, msg):
+        if sig not in viol:
+            viol[sig] = {"sig": sig, "msg": msg}
+
+    def gauge(z):
+        if direction == "L":
+            z.ensure_left_canonical()
+        else:
+            z.ensure_right_canonical()
+        return z
+    try:
+        if hist in ("fixed-then-threshold", "both-then-threshold", "threshold-then-fixed", "fixed-then-larger-fixed"):
+            if hist == "threshold-then-fixed":
+                s.compress_config = CompressConfig(CompressCriteria.threshold, threshold=1e-12)
+            elif hist == "both-then-threshold":
+                s.compress_config = CompressConfig(CompressCriteria.both, threshold=1e-12, max_bonddim=16)
+            else:
+                s.compress_config = CompressConfig(CompressCriteria.fixed, max_bonddim=16 if hist == "fixed-then-threshold" else 2)
+            gauge(s).compress()
+        elif hist in ("copy-of-limited-then-threshold", "sum-of-limited-then-threshold"):
+            s.compress_config = CompressConfig(CompressCriteria.fixed, max_bonddim=4)
+            gauge(s).compress()
+            s = s.copy() if hist.startswith("copy") else s.add(s.scale(0.5))
+        else:
+            s.compress_config = CompressConfig(CompressCriteria.fixed, max_bonddim=3)
+            gauge(s).compress()
+            s.compress_config = CompressConfig(CompressCriteria.fixed, max_bonddim=6)      # expansion target
+            s = s.expand_bond_dimension(ch.mpo_neutral(), coef=1e-2)
+    except Exception as e:
+        return {"rejected": 1, "outcome": f"history-refused:{type(e).__name__}"}
+    # second compression on the SAME settings object, criterion switched by attribute assignment
+    gauge(s)
+    r = _copy.deepcopy(s)
+    if hist == "threshold-then-fixed":
+        s.compress_config.criteria = CompressCriteria.fixed
+        s.compress_config.bond_dim_max_value = 2
+        s.compress_config.max_dims = None
+        r.compress_config = CompressConfig(CompressCriteria.fixed, max_bonddim=2)
+    elif hist == "fixed-then-larger-fixed":
+        s.compress_config.bond_dim_max_value = 3
+        s.compress_config.max_dims = None
+        r.compress_config = CompressConfig(CompressCriteria.fixed, max_bonddim=3)
+    else:
+        s.compress_config.criteria = CompressCriteria.threshold
+        s.compress_config.threshold = thr
+        r.compress_config = CompressConfig(CompressCriteria.threshold, threshold=thr)
+    psi = M.dense_of(s)
+    dims = ch.dims
+    try:
+        s.compress()
+        r.compress()
+    except Exception as e:
+        add(f"C05:own-history:exception:{type(e).__name__}", f"{tag}: {e!r}")
+        return {"nontrivial": True, "outcome": "own-history:viol", "viol": list(viol.values())}
+    bd, bd_ref = list(s.bond_dims)[1:-1], list(r.bond_dims)[1:-1]
+    phi = M.dense_of(s)
+    if bd != bd_ref or not close(phi, M.dense_of(r), 1e-10):
+        add(f"C05:own-history:differs-from-fresh-settings:{hist}", f"{tag}: bond dims {bd} (distance to the original {np.linalg.norm(psi - phi):.4e}); the same tensors with a fresh settings object give {bd_ref} ({np.linalg.norm(psi - M.dense_of(r)):.4e})")
+    if "then-threshold" in hist:
+        cut = len(dims) - 1 if direction == "L" else 1
+        sv = np.linalg.svd(psi.reshape(int(np.prod(dims[:cut])), -1), compute_uv=False)
+        nz = sv / np.linalg.norm(sv)
+        if not np.any(np.abs(nz - thr) < 1e-6 * thr):
+            want = int(np.sum(nz > thr))
+            got = bd[cut - 1]
+            if got != want:
+                add(f"C05:own-history:threshold-count:{hist}", f"{tag}: kept {got} states at the first cut, {want} normalised singular values exceed {thr}; bond dims {bd}")
+    return {"nontrivial": True, "counters": {"compressions": 3}, "outcome": f"own-history:{'viol' if viol else 'ok'}", "viol": list(viol.values()), "sample": {"desc": desc, "bond_dims": bd}}
+
+
 def run_case(desc, seed):
+    if desc["k"] == "own-config-history":
+        return run_own_history(desc, seed)
     if desc["k"] == "config-history":
         return run_config_history(desc, seed)
     if desc["k"] == "chain":
